@@ -56,9 +56,23 @@ def ipTo4Bytes (ip : IP) : Bytes :=
   | none => []
   | some b => (to4 b).getD []
 
-/-- `OptionCodeList.Add`: append every code not yet in the list (a code given
-twice in `cs` is added once; duplicates already in `l` stay). -/
-def addCodes (l : List UInt8) (cs : List UInt8) : List UInt8 :=
+/-- A `dhcpv4.OptionCode` interface value: its code and whether its dynamic
+type is `GenericOptionCode` (`generic = true`) or the package's own
+`optionCode` (the exported `Option…` constants and every code decoded from a
+packet).  `OptionCodeList.Has` compares interface values with `==`, so two
+values are the same only when BOTH the type and the code agree: merging
+`GenericOptionCode(3)` into a list holding `OptionRouter` adds a second 3. -/
+structure OptCode where
+  generic : Bool
+  code : UInt8
+  deriving DecidableEq
+
+/-- a code of the package's own type (an `Option…` constant) -/
+def OptCode.named (c : UInt8) : OptCode := ⟨false, c⟩
+
+/-- `OptionCodeList.Add`: append every code value not yet in the list (a value
+given twice in `cs` is added once; duplicates already in `l` stay). -/
+def addCodes (l : List OptCode) (cs : List OptCode) : List OptCode :=
   cs.foldl (fun l c => if l.contains c then l else l ++ [c]) l
 
 /-- A `dhcpv4.Option` as built by the typed constructors the builders (and the
@@ -103,7 +117,7 @@ inductive Modifier where
   | withUserClass (uc : Bytes) (rfc : Bool)
   | withNetboot
   | withMessageType (m : UInt8)
-  | withRequestedOptions (cs : List UInt8)
+  | withRequestedOptions (cs : List OptCode)
   | withRelay (ip : IP)
   | withNetmask (mask : Bytes)
   | withLeaseTime (secs : Nat)            -- uint32
@@ -153,12 +167,12 @@ def setBroadcast (p : Pkt4) : Pkt4 := { p with flags := p.flags ||| broadcastMas
 /-- `d.SetUnicast()`: `Flags &= ^uint16(0x8000)` -/
 def setUnicast (p : Pkt4) : Pkt4 := { p with flags := p.flags &&& unicastMask }
 /-- `d.ParameterRequestList()`: the codes of option 55 (nil when absent; the
-decoder accepts every byte string). -/
-def paramRequestList (p : Pkt4) : List UInt8 := (p.opts.get optParamList).getD []
+decoder accepts every byte string), each of the package's own code type. -/
+def paramRequestList (p : Pkt4) : List OptCode := ((p.opts.get optParamList).getD []).map OptCode.named
 
-/-- `WithRequestedOptions(cs...)(d)` -/
-def requestOptions (p : Pkt4) (cs : List UInt8) : Pkt4 :=
-  setOpt p optParamList (addCodes (paramRequestList p) cs)
+/-- `WithRequestedOptions(cs...)(d)`: decode option 55, `Add`, re-encode -/
+def requestOptions (p : Pkt4) (cs : List OptCode) : Pkt4 :=
+  setOpt p optParamList ((addCodes (paramRequestList p) cs).map (·.code))
 
 /-- `Duration.ToBytes` of `time.Duration(secs) * time.Second` for a uint32. -/
 def durationBytes (secs : Nat) : Bytes := be32 secs
@@ -187,7 +201,7 @@ def apply (m : Modifier) (p : Pkt4) : Pkt4 :=
   | .withUserClass uc rfc =>
     -- rfc: Strings{uc}.ToBytes() = uint8(len) ++ uc; else String(uc)
     setOpt p optUserClass (if rfc then UInt8.ofNat uc.length :: uc else uc)
-  | .withNetboot => requestOptions p [optTFTPServerName, optBootfileName]
+  | .withNetboot => requestOptions p [.named optTFTPServerName, .named optBootfileName]
   | .withMessageType t => setOpt p optMessageType [t]
   | .withRequestedOptions cs => requestOptions p cs
   | .withRelay ip =>
@@ -218,7 +232,8 @@ def prependModifiers (m : List Modifier) (other : List Modifier) : List Modifier
 
 /-- the parameter request list every requesting builder asks for:
 subnet mask, router, domain name, DNS -/
-def stdRequested : List UInt8 := [optSubnetMask, optRouter, optDomainName, optDNS]
+def stdRequested : List OptCode :=
+  [.named optSubnetMask, .named optRouter, .named optDomainName, .named optDNS]
 
 /-- The exported builders and what they are given. -/
 inductive Builder where
